@@ -13,6 +13,7 @@ package props
 //               is released, a new request must be admitted; same for max_retries via a retry storm.
 
 import (
+	"encoding/json"
 	"fmt"
 	"os"
 	"path/filepath"
@@ -24,6 +25,7 @@ import (
 	"time"
 
 	"mosn.io/api"
+	v2 "mosn.io/mosn/pkg/config/v2"
 	"mosn.io/mosn/pkg/types"
 	"mosn.io/mosn/pkg/upstream/cluster"
 	"mosn.io/mosn/pkg/verifhook"
@@ -188,6 +190,13 @@ func c10Engine(c *lab.Ctx) {
 	for _, proto := range engineProtos {
 		c10RetryNoHost(c, e, proto)
 		c10Conservation(c, e, clusters, "after retries that found no healthy host "+proto, false)
+	}
+	// (2f) the cluster is updated at runtime (same configuration pushed again, as a CDS / service-discovery refresh does) while
+	// requests and a retry of it are in flight: what was admitted before the update must be given back to the books the limits
+	// are judged against after it
+	for _, proto := range engineProtos {
+		c10ClusterUpdateInflight(c, e, proto)
+		c10Conservation(c, e, clusters, "after a cluster update with requests in flight "+proto, false)
 	}
 	// (3) threshold tests, one protocol at a time, nothing else running
 	for _, proto := range engineProtos {
@@ -479,6 +488,101 @@ func c10Burst(c *lab.Ctx, e *engine, proto string) {
 		c.Distinct(fmt.Sprintf("burst|%s|served=%d", proto, served))
 		c.Count("burst-requests-served:"+proto, served)
 		c.Count("burst-requests-refused:"+proto, refused)
+	}
+}
+
+// c10ClusterUpdateInflight: two slow requests (and, second variant, a request whose first attempt is answered 503 and whose retry is
+// slow) are in flight on cluster -lim / -one when the cluster's own configuration is pushed again through the cluster manager
+// adapter - with its hosts (service discovery path) or without (CDS path). The requests must still be answered; the books are
+// judged by the conservation check that follows and by the threshold tests after it.
+func c10ClusterUpdateInflight(c *lab.Ctx, e *engine, proto string) {
+	find := func(name string) (v2.Cluster, bool) {
+		for _, cl := range e.cfg.Clusters {
+			if cl["name"] == name {
+				b, _ := json.Marshal(cl)
+				var cc v2.Cluster
+				if err := json.Unmarshal(b, &cc); err != nil {
+					return cc, false
+				}
+				return cc, true
+			}
+		}
+		return v2.Cluster{}, false
+	}
+	for vi, variant := range []string{"with-hosts/lim", "cluster-only/lim", "with-hosts/oneretry", "cluster-only/oneretry"} {
+		route, cname := "lim", "cl-"+proto+"-lim"
+		plans := []string{"d600:ok", "d600:ok"}
+		if strings.HasSuffix(variant, "oneretry") {
+			route, cname = "oneretry", "cl-"+proto+"-one"
+			plans = []string{"s503|d600:ok"}
+		}
+		cc, ok := find(cname)
+		if !ok {
+			c.Inconclusive("cluster config not found: " + cname)
+			continue
+		}
+		c.Case("c10 cluster update in flight %s %s", proto, variant)
+		_, _ = e.quiesce(3 * time.Second)
+		out := make(chan clEvent, len(plans))
+		var cls []client
+		var toks []string
+		for i, pl := range plans {
+			cl := e.newClient(proto, fmt.Sprintf("%s-upd-%d-%d", proto, vi, i))
+			cls = append(cls, cl)
+			tok := fmt.Sprintf("upd-%s-%d-%d-%d", proto, c.Batch, vi, i)
+			toks = append(toks, tok)
+			go func(cl client, tok, pl string) {
+				r := reqFor(proto, route, tok, pl)
+				r.Timeout = 6 * time.Second
+				out <- cl.do(r)
+			}(cl, tok, pl)
+		}
+		// event-driven: the update is applied once every request is at the upstream (for the retry variant: its second attempt)
+		wantAttempts := 1
+		if route == "oneretry" {
+			wantAttempts = 2
+		}
+		there := false
+		for w := 0; w < 400 && !there; w++ {
+			there = true
+			for _, t := range toks {
+				if len(e.log.upsFor(t)) < wantAttempts {
+					there = false
+				}
+			}
+			if !there {
+				time.Sleep(5 * time.Millisecond)
+			}
+		}
+		var uerr error
+		if there {
+			if strings.HasPrefix(variant, "with-hosts") {
+				uerr = cluster.GetClusterMngAdapterInstance().TriggerClusterAndHostsAddOrUpdate(cc, cc.Hosts)
+			} else {
+				uerr = cluster.GetClusterMngAdapterInstance().TriggerClusterAddOrUpdate(cc)
+			}
+		}
+		answered := 0
+		for range plans {
+			ev := <-out
+			if ev.Kind == "response" && ev.BodyToken == ev.Token {
+				answered++
+			}
+		}
+		for _, cl := range cls {
+			cl.close()
+		}
+		c.Eval(1)
+		if !there {
+			c.Inconclusive("cluster update: the requests did not all reach the upstream in time")
+			continue
+		}
+		if uerr != nil {
+			c.Inconclusive("cluster update refused: " + uerr.Error())
+			continue
+		}
+		c.Count("cluster-updates-with-requests-in-flight", 1)
+		c.Distinct(fmt.Sprintf("cluster-update-inflight|%s|%s|answered=%d/%d", proto, variant, answered, len(plans)))
 	}
 }
 
